@@ -1,3 +1,37 @@
 """native oracles for C16 replays (shared implementations)"""
 from .native_common import Skip
 from .native_funcs import NATIVE, SEARCH
+import numpy as np
+from .native_common import close
+
+
+def musicus(inp):
+    """minvar(x, m, T, NFFT)[k] = T / (e_k^H R^-1 e_k), R the m x m Toeplitz autocorrelation matrix of the order m-1 Burg model;
+    R^-1 by the Gohberg-Semencul formula (independent of the library's psi sequence)"""
+    import spectrum
+    cx = bool(inp.get("complex"))
+    rng = np.random.RandomState(11)
+    m0 = int(inp.get("m", 3))
+    for (N, m, n, T) in ((24, m0, max(int(inp.get("NFFT", 16)), 2 * m0), 1.0), (32, 4, 16, 2.5), (20, 2, 9, 0.5), (40, 6, 33, 1.0)):
+        x = rng.randn(N) + (1j * rng.randn(N) if cx else 0)
+        psd, A, k = spectrum.minvar(x, m, T, n)
+        a, P, ref = spectrum.arburg(x, m - 1)
+        c = np.concatenate(([1.0], np.asarray(a)))
+        if not (close(np.asarray(A), c, 1e-10) and close(np.asarray(k), np.asarray(ref), 1e-10)):
+            return False, "minvar(m=%d) does not return [1, a_burg] / the Burg reflection coefficients of order m-1" % m
+        L1 = np.array([[c[i - j] if i >= j else 0 for j in range(m)] for i in range(m)])
+        d = np.concatenate(([0.0], np.conj(c[:0:-1])))
+        L2 = np.array([[d[i - j] if i >= j else 0 for j in range(m)] for i in range(m)])
+        Rinv = (L1 @ L1.conj().T - L2 @ L2.conj().T) / P
+        idx = np.arange(m)
+        want = np.array([T / np.real(np.exp(-2j * np.pi * kk * idx / n) @ Rinv @ np.exp(2j * np.pi * kk * idx / n)) for kk in range(n)])
+        if not close(np.asarray(psd), want, 1e-7):
+            return False, "minvar(N=%d, m=%d, NFFT=%d, T=%g): PSD is not T/(e^H R^-1 e); max rel diff %.3g" % (
+                N, m, n, T, float(np.max(np.abs(np.asarray(psd) - want) / np.abs(want))))
+    return True, "minimum-variance spectrum equals T/(e^H R^-1 e) (Gohberg-Semencul inverse of the Burg model's Toeplitz matrix)"
+
+
+NATIVE = dict(NATIVE)
+SEARCH = dict(SEARCH)
+NATIVE["musicus"] = musicus
+SEARCH["musicus"] = lambda rng, h: dict(h)
